@@ -6,7 +6,7 @@
    theorems are generic in the bit width.  *_refuted / *_partial / *_iff: the statement at full strength is false
    of the unchanged plugin (witness), and holds exactly / at least on the stated domain. *)
 From Coq Require Import ZArith Bool List.
-From J2O Require Import PyLib Dtype Tensor Batch Graph Lowering LoweringSem OnnxInt Kernels Lift LiftProg.
+From J2O Require Import PyLib Dtype Tensor Batch Reshape Graph Lowering LoweringSem OnnxInt Kernels Lift LiftProg LiftStruct.
 Import ListNotations.
 Open Scope Z_scope.
 
@@ -618,3 +618,54 @@ Theorem C01K_composition_of_graphs : forall e args xs, kok (length args) e ->
   kev_s (ksubst e args) xs = kev_s e (map (fun a => kev_s a xs) args).
 Proof. exact kev_s_ksubst. Qed.
 Print Assumptions C01K_composition_of_graphs.
+
+(* ================================================================ traced programs: structural primitives (LiftStruct.v)
+   Real jaxprs of integer programs contain, next to the table primitives, literals, broadcast_in_dim (rank promotion),
+   reshape, squeeze / expand_dims, transpose, integer convert_element_type and nested jit.  Each is an exact kernel at tensor
+   level (index-function semantics, all ranks and extents); jit bodies are inlined by the harness exactly as the converter
+   does; tie S for programs: Coq RUNS the model dispatcher on the traced program and compares the emitted graph (as a tree)
+   with the real export. *)
+(* lax.broadcast_in_dim: the plugin's Reshape (operand extents placed at the broadcast dimensions, 1 elsewhere) + Expand
+   computes  out[idx] = x[idx[bd_k] (0 where x has extent 1)]_k  whenever bd is increasing inside the target rank and every
+   operand extent is 1 or the target's (bd_ok: JAX's own precondition) *)
+Theorem C01K_broadcast_in_dim_correct : forall (A : Type) (target bd : list nat) (X : tensor A),
+  bd_ok (length target) 0 bd (shape X) target ->
+  teq (lowered_broadcast_in_dim target bd X) (jax_broadcast_in_dim target bd X).
+Proof. exact @broadcast_in_dim_correct. Qed.
+Print Assumptions C01K_broadcast_in_dim_correct.
+(* broadcast_in_dim of a literal is folded by the converter into an initializer holding the value at every index *)
+Theorem C01K_full_is_broadcast_of_scalar : forall s (c : sval), teq (tfull s c) (jax_broadcast_in_dim s [] (tscalar c)).
+Proof. exact full_is_broadcast. Qed.
+Print Assumptions C01K_full_is_broadcast_of_scalar.
+(* every equation kind of a traced program is a kernel whose emitted nodes evaluate, under the tensor-level ONNX semantics
+   with Reshape / Expand / Squeeze / Transpose / Constant, to exactly its tensor-level JAX value on a fresh name *)
+Theorem C01K_struct_kernels_ok : forall s k, gk_of s = Some k -> gkern_ok ssem k.
+Proof. exact gk_of_ok. Qed.
+Print Assumptions C01K_struct_kernels_ok.
+Theorem C01K_struct_registry_meets_plugin_contract : forall l,
+  eqn_contract cten (gpsem (stable l)) ssem (greg (stable l)) slit.
+Proof. exact struct_registry_meets_plugin_contract. Qed.
+Print Assumptions C01K_struct_registry_meets_plugin_contract.
+(* FULL-STRENGTH C01 FOR TRACED INTEGER PROGRAMS (any length, wiring, rank, extent; side conditions: the dispatcher lowers
+   the program and the JAX program is defined on the inputs, i.e. operands broadcast-compatible, in the kernels' domains,
+   reshape sizes / squeeze axes / permutations / broadcast dimensions valid) *)
+Theorem C01K_struct_program_correct : forall l jp s s', slower_jaxpr (greg (stable l)) s jp = Ok s' ->
+  forall r g r', related cten s r g -> jeval cten (gpsem (stable l)) slit jp r = Some r' ->
+  exists new g', s_nodes s' = s_nodes s ++ new /\ eval cten ssem new g = Some g' /\ genv_le cten g g' /\ related cten s' r' g'.
+Proof. exact struct_program_correct. Qed.
+Print Assumptions C01K_struct_program_correct.
+(* the abstract form: ANY registry of kernels that meet gkern_ok (further structural primitives plug in here) *)
+Theorem C01K_struct_fragment_correct : forall sem tab lit, (forall p k, tab p = Some k -> gkern_ok sem k) ->
+  forall jp s s', slower_jaxpr (greg tab) s jp = Ok s' ->
+  forall r g r', related cten s r g -> jeval cten (gpsem tab) lit jp r = Some r' ->
+  exists new g', s_nodes s' = s_nodes s ++ new /\ eval cten sem new g = Some g' /\ genv_le cten g g' /\ related cten s' r' g'.
+Proof. exact struct_fragment_correct. Qed.
+Print Assumptions C01K_struct_fragment_correct.
+(* non-vacuity: x * 2 + y with x : int32[2,3], y : int32[3] (mul by a literal, rank promotion by broadcast_in_dim, add):
+   the emitted graph is Add(Mul(x, 2), Expand(Reshape(y, [1,3]), [1,3])), and both semantics give the same concrete tensor *)
+Theorem C01K_struct_example :
+  sp_tree sx_tab sx_prog 2 5 = Some (gtree_of (ROp2 (OAdd I32) (ROp2 (OMul I32) (RIn 0) (RConst (VZ 2))) (RExpand [1; 3]%nat (RReshape [1; 3]%nat (RIn 1)))))
+  /\ opt_cten_is (sp_jax sx_tab sx_prog [sx_cx; sx_cy] 5) (mkC [2; 3]%nat (map VZ [4; 15; -23; 0; 5; -1])) = true
+  /\ opt_cten_is (sp_onnx sx_tab sx_prog [sx_cx; sx_cy] 5) (mkC [2; 3]%nat (map VZ [4; 15; -23; 0; 5; -1])) = true.
+Proof. exact sx_sp. Qed.
+Print Assumptions C01K_struct_example.
